@@ -47,9 +47,13 @@ def run(ctx):
     seen = set()
     root = common.scratch_dir('rules')
     for i, (src, om) in enumerate(models):
+        via = i % 4 == 1
         spec = {'terminals': {}, 'grammar': [], 'omen': om}
+        if via:
+            spec = {'terminals': {'D1': [['1', '1.0']]}, 'grammar': [['M', '0.5'], ['D1', '0.5']], 'omen_prob': [['1', '0.5']], 'omen': om}
         d = common.write_ruleset(os.path.join(root, f"o{i % 20}"), spec)
-        warm = rng.random() < 0.5
+        warm = rng.random() < 0.5 or via
+        dist['via_grammar_object'] = dist.get('via_grammar_object', 0) + int(via)
         space = sum(len(om['alphabet']) ** ln for ln in range(om['ngram'], len(om['ln']) + 1))
         targets = range(0, 14) if space <= ctx.scale(1500, 20000) else range(0, ctx.scale(7, 9))
         if src == 'high-levels' and space <= 1500:
@@ -64,7 +68,7 @@ def run(ctx):
             targets = sorted(set(lv) | {0, 13, (max(lv) + 1) if lv else 1})
         dist['high_level_models'] = dist.get('high_level_models', 0) + int(src == 'high-levels')
         try:
-            r = corr_omen.run_case(d, om, rng, targets, warm)
+            r = corr_omen.run_case(d, om, rng, targets, warm, via_grammar=via)
         except Exception as e:
             viol.append({'property': 'C10', 'kind': 'implementation-raised', 'error': repr(e)[:300], 'witness': {'omen': om}})
             continue
